@@ -353,3 +353,100 @@ func c13RunSessions(env *run.Env, rep *ev.Reporter, typ string, seq []string) {
 		return
 	}
 }
+
+// ---------------------------------------------------------------------
+// Noisy run logs: do-approve derives the status from the log file of the
+// run; what else the log holds (here: a 70 000 byte one-line error page of
+// the first HA member, logged as a warning before the second member
+// answers) must not change what is recorded. PAN-OS and NSX devices with
+// two names in the info file; the device differs from the current policy,
+// so after the compare missing-approve must list it.
+func c13NoisyLogs(env *run.Env, rep *ev.Reporter) {
+	type ncase struct {
+		typ   string
+		brief bool
+		fault string
+	}
+	var cases []ncase
+	for _, typ := range []string{"panos", "nsx"} {
+		for _, brief := range []bool{false, true} {
+			for _, f := range []string{"", "http-503-long", "http-500"} {
+				cases = append(cases, ncase{typ, brief, f})
+			}
+		}
+	}
+	env.Parallel(len(cases), func(i int) {
+		c := cases[i]
+		id := fmt.Sprintf("noisy-log/%s/brief=%v/first-member=%s", c.typ, c.brief, c.fault)
+		sc := liveScenarios(c.typ)[0]
+		lc := newLiveCase(sc, "do-approve", true)
+		lc.Names = []string{"router", "router-b"}
+		if c.typ == "panos" {
+			// Second member of the pair: own credentials and hostname.
+			lc.Credentials = "router admin secret\nrouter-b adminb secretb\n"
+			lc.HTTP.Members = append(lc.HTTP.Members, sim.HTTPMember{User: "adminb", Password: "secretb",
+				Key: "LUFRPT1keyBBBBBBBBBBBBBBBB==", Hostname: "router-b"})
+		}
+		lc.Brief = c.brief
+		lc.TestTime = c13Time(1)
+		if c.fault != "" {
+			lc.HTTP.Faults = []sim.Fault{{Ord: 1, Kind: c.fault}}
+		}
+		lc.KeepDir = true
+		lr := lc.run(env)
+		defer lr.cleanup()
+		delivered := c.fault == ""
+		changes := 0
+		for _, e := range lr.Events {
+			if e.Fault != "" {
+				delivered = true
+			}
+			if e.Class == "config-change" {
+				changes++
+			}
+		}
+		rep.Case(id, delivered)
+		rep.Count("noisy_log_runs", 1)
+		if isCrash(lr.Res) || lr.Res.Exit != 0 || !delivered || changes > 0 {
+			rep.Inconclusive(fmt.Sprintf("noisy-log:compare-did-not-complete(exit=%d)", lr.Res.Exit))
+			if os.Getenv("VERIF_DEBUG") != "" {
+				fmt.Fprintf(os.Stderr, "DEBUG %s exit=%d delivered=%v changes=%d\nstdout: %.600s\nstderr: %.600s\n", id, lr.Res.Exit, delivered, changes, lr.Res.Stdout, lr.Res.Stderr)
+			}
+			return
+		}
+		home := filepath.Join(lr.Dir, "home")
+		r := run.Exec(run.Cmd{Argv: []string{env.Prog("missing-approve")}, Dir: lr.Dir, Env: run.BaseEnv(home), Timeout: 30 * time.Second})
+		listed := false
+		for _, l := range strings.Split(r.Stdout, "\n") {
+			if strings.TrimSpace(l) == "router" {
+				listed = true
+			}
+		}
+		if os.Getenv("VERIF_DEBUG") != "" {
+			for n, d := range lr.Files {
+				if strings.HasSuffix(n, ".compare") {
+					fmt.Fprintf(os.Stderr, "DEBUG %s log %s: %d bytes, longest line %d, status %s\n", id, n, len(d), longestLine(d), strings.TrimSpace(lr.Status))
+				}
+			}
+		}
+		if !listed {
+			ks := &c13State{FS: map[string]string{"status/" + c13Dev: lr.Status}, HasObs: true, ObsEq: false, ObsVia: "compare"}
+			rep.Violation("must-list:"+c13SlotKey(ks), fmt.Sprintf("must-list after a do-approve compare of a %s device that differs (first HA member answered %q, logged before the second member was used); missing-approve printed %q; status file: %s [%s]",
+				c.typ, c.fault, strings.TrimSpace(r.Stdout), strings.TrimSpace(lr.Status), id), func(d string) {
+				b, _ := json.Marshal(map[string]any{"tier": "noisy-log", "case": id})
+				os.WriteFile(filepath.Join(d, "history.json"), b, 0644)
+				os.WriteFile(filepath.Join(d, "status.json"), []byte(lr.Status), 0644)
+			})
+		}
+	})
+}
+
+func longestLine(s string) int {
+	m := 0
+	for _, l := range strings.Split(s, "\n") {
+		if len(l) > m {
+			m = len(l)
+		}
+	}
+	return m
+}
